@@ -228,6 +228,26 @@ Proof.
   destruct (settle' n1 ds) as [n2 o2]. cbn [fst] in *. eapply keeps_trans; eassumption.
 Qed.
 
+Lemma settle_app_k n ds : keeps n (fst (fst (settle_app n ds))).
+Proof.
+  unfold settle_app.
+  pose proof (io_iteration_k n ds) as H2. destruct (io_iteration n ds) as [[n2 o2] ds'].
+  pose proof (flush_k n2) as H3. destruct (flush n2) as [n3 o3].
+  cbn [fst] in *. eapply keeps_trans; eassumption.
+Qed.
+Lemma settle_app'_k n ds : keeps n (fst (settle_app' n ds)).
+Proof.
+  unfold settle_app'. pose proof (settle_app_k n ds) as H. destruct (settle_app n ds) as [[n1 o1] d]. exact H.
+Qed.
+
+Lemma k_then_settle_app (r : node * list output) n ds :
+  keeps n (fst r) ->
+  keeps n (fst (let '(n1, o1) := r in let '(n2, o2) := settle_app' n1 ds in (n2, (o1 ++ o2)%list))).
+Proof.
+  destruct r as [n1 o1]. intros H1. pose proof (settle_app'_k n1 ds) as H2.
+  destruct (settle_app' n1 ds) as [n2 o2]. cbn [fst] in *. eapply keeps_trans; eassumption.
+Qed.
+
 Lemma wake_k target fuel : forall n0 n ds acc, keeps n0 n -> keeps n0 (fst (wake target fuel n ds acc)).
 Proof.
   induction fuel as [|f IH]; intros n0 n ds acc K; cbn [wake].
@@ -317,7 +337,7 @@ Proof.
                else (n0, o_hbh m)))) by (destruct (o_hbh m =? 0); kp).
     destruct (if o_hbh m =? 0 then _ else _) as [n1 hbh]. cbn [fst] in K1. cbv zeta.
     eapply keeps_trans; [exact K0|]. eapply keeps_trans; [exact K1|].
-    apply k_then_settle. eapply keeps_trans; [|apply send_req_k; reflexivity]. kp.
+    apply k_then_settle_app. eapply keeps_trans; [|apply send_req_k; reflexivity]. kp.
   - (* EStop *)
     rewrite step_stop. cbv zeta. destruct force; [kp|].
     apply k_then_settle. apply stop_go_k. kp.
@@ -755,8 +775,8 @@ Proof.
     cbn [ghost_step]. clear Hother. revert g H. change (tr n (step n ds (EAppAnswer i m))). cbn [step].
     pose proof (route_answer_k n m) as K. destruct (route_answer n m) as [[cid|] n1]; cbn [snd] in K.
     + pose proof (tr_send n1 cid m) as T. destruct (send_message n1 cid m) as [n2 o2].
-      pose proof (settle'_k n2 ds) as K3. pose proof (settle'_rq n2 ds) as R3.
-      destruct (settle' n2 ds) as [n3 o3]. cbn [fst snd] in *.
+      pose proof (settle_app'_k n2 ds) as K3. pose proof (settle_app'_rq n2 ds) as R3.
+      destruct (settle_app' n2 ds) as [n3 o3]. cbn [fst snd] in *.
       eapply tr_pre; [exact K|]. eapply tr_app; [exact T|]. apply tr_quiet; assumption.
     + apply tr_quiet; [exact K|]. constructor; [exact I|constructor].
 Qed.
